@@ -21,7 +21,7 @@ EXPLANATION = (
     "its complement; the write-back is length-preserving (whole-frame slice with to_bytes(len(frame)) or a window of "
     "exactly the bytes read); R4 the sign predicate includes the sign bit alone and sign extension fills all higher "
     "bits; R5 aligned path slices exactly the object's bytes; R6 get_data/set_data use the same aligned/unaligned "
-    "predicate and divmod(self.offset, 8); set_data ends in pdo_parent.update(). R8 no class-level mutable object is mutated in place by instances (each node/client/map/dictionary has its own state)."
+    "predicate and divmod(self.offset, 8); set_data ends in pdo_parent.update(). R8 [R9: ODVariable.__len__ gives every data type its width and is never 0 (shared with C04.R5)] no class-level mutable object is mutated in place by instances (each node/client/map/dictionary has its own state)."
 )
 ASSUMPTIONS = [
     "not decided: values for all layouts (only the index arithmetic of byte windows is evaluated over the finite layout "
@@ -96,6 +96,9 @@ def run(chk):
     _get_unaligned(chk, folder, fg, g, gi)
     _set_unaligned(chk, folder, fs, s, si)
 
+    # ------------------------------------------------------------------ R9 ODVariable.__len__ per data type (a mapped variable's default length is len(od); shared with C04.R5)
+    from . import c04 as _c04len
+    _c04len.bit_length_by_type(chk, "R9")
     # ------------------------------------------------------------------ R8 instances are independent (shared clause)
     from . import shared as _shared
     _shared.isolation(chk, "R8", rels=['canopen/pdo/base.py', 'canopen/pdo/__init__.py'])
